@@ -82,6 +82,10 @@ type Ctx struct {
 	Seed       int64
 	Deadline   time.Time
 	UnitBudget time.Duration // budget of the next Explore call (0 = what is left)
+	// AlwaysBound0: bound 0 (the default schedule under every environment choice) of each unit is completed whatever the
+	// clock says, so that a slow machine still covers every unit's default schedule (race builds on a freshly restored
+	// sandbox have been seen to run two orders of magnitude slower than on a warm one)
+	AlwaysBound0 bool
 	Out        *ShardOut
 	Replay     *ReplayReq
 	OnlyUnit   string // run only units whose name has this prefix (debugging)
@@ -185,7 +189,11 @@ func (c *Ctx) Explore(name string, params map[string]any, bound int, run explore
 	for b := 0; b <= bound; b++ {
 		b := b
 		st = explore.NewStats()
-		opt := explore.Options{Bound: b, Deadline: deadline, Shard: shard, Of: of, KeepGoing: true, MaxViol: 6, Cache: !NoCache,
+		dl := deadline
+		if c.AlwaysBound0 && b == 0 {
+			dl = time.Time{}
+		}
+		opt := explore.Options{Bound: b, Deadline: dl, Shard: shard, Of: of, KeepGoing: true, MaxViol: 6, Cache: !NoCache,
 			OnExec: func(e *explore.Exec, v explore.Verdict) {
 				if e.Cost() == b { // executions below the bound were counted in an earlier iteration
 					distinct++
